@@ -2,6 +2,7 @@
 // the three code paths: POMDP::Model<MDP::Model> (dense Eigen), POMDP::SparseModel<MDP::SparseModel>
 // (sparse Eigen) and a user-defined model that only answers probability queries (non-Eigen branches).
 //
+// case:  conv dy S A O <tables> NB beliefs   (sparse models built by conversion from sources with sub-threshold tails)
 // case:  seq <regime> S A O <tables> b[S] L (a o)*L   (filtering along a history, see main)
 // case:  hist <regime> S A O <initial tables> NOPS ops… NB beliefs   (operation history, see main)
 // case:  reset <regime> S A O <tables 1> <tables 2> NB beliefs   (see main)
@@ -46,6 +47,56 @@ static_assert(!POMDP::IsModelEigen<UserModel>);
 static_assert(POMDP::IsModelEigen<POMDP::Model<MDP::Model>>);
 static_assert(POMDP::IsModelEigen<POMDP::SparseModel<MDP::SparseModel>>);
 
+// User-defined models that DO satisfy POMDP::IsModelEigen (so the Eigen branches are taken) but differ from the
+// library's own classes in ways the concept allows:
+//  * UserEigenByValue: dense matrices computed on request and returned BY VALUE (temporaries);
+//  * UserEigenColSparse: COLUMN-major Eigen::SparseMatrix<double> (Eigen's default storage order).
+template <typename Mat, bool ByValue>
+class UserEigen {
+    public:
+        using Ret = std::conditional_t<ByValue, Mat, const Mat &>;
+        template <typename Src>
+        explicit UserEigen(const Src & src) : S(src.getS()), A(src.getA()), O(src.getO()) {
+            for (size_t a = 0; a < A; ++a) {
+                Matrix2D t(S, S), ob(S, O);
+                for (size_t s = 0; s < S; ++s) {
+                    for (size_t s1 = 0; s1 < S; ++s1) t(s, s1) = src.getTransitionProbability(s, a, s1);
+                    for (size_t o = 0; o < O; ++o) ob(s, o) = src.getObservationProbability(s, a, o);
+                }
+                t_.push_back(conv(t)); ob_.push_back(conv(ob));
+            }
+            Matrix2D r(S, A);
+            for (size_t s = 0; s < S; ++s) for (size_t a = 0; a < A; ++a) r(s, a) = src.getExpectedReward(s, a, 0);
+            r_ = conv(r);
+        }
+        size_t getS() const { return S; }
+        size_t getA() const { return A; }
+        size_t getO() const { return O; }
+        double getDiscount() const { return 0.5; }
+        bool isTerminal(size_t) const { return false; }
+        double getTransitionProbability(size_t s, size_t a, size_t s1) const { return t_[a].coeff(s, s1); }
+        double getExpectedReward(size_t s, size_t a, size_t) const { return r_.coeff(s, a); }
+        double getObservationProbability(size_t s1, size_t a, size_t o) const { return ob_[a].coeff(s1, o); }
+        std::tuple<size_t, double> sampleSR(size_t s, size_t) const { return {s, 0.0}; }
+        std::tuple<size_t, size_t, double> sampleSOR(size_t s, size_t) const { return {s, 0, 0.0}; }
+        Ret getTransitionFunction(size_t a) const { return t_[a]; }
+        Ret getObservationFunction(size_t a) const { return ob_[a]; }
+        Ret getRewardFunction() const { return r_; }
+    private:
+        static Mat conv(const Matrix2D & m) {
+            if constexpr (std::is_same_v<Mat, Matrix2D>) return m;
+            else { Mat sp = m.sparseView(); sp.makeCompressed(); return sp; }
+        }
+        size_t S, A, O;
+        std::vector<Mat> t_, ob_;
+        Mat r_;
+};
+using UserEigenByValue   = UserEigen<Matrix2D, true>;
+using UserEigenColSparse = UserEigen<Eigen::SparseMatrix<double>, false>;   // column-major
+static_assert(POMDP::IsModelEigen<UserEigenByValue>);
+static_assert(POMDP::IsModelEigen<UserEigenColSparse>);
+static_assert(!Eigen::SparseMatrix<double>::IsRowMajor && SparseMatrix2D::IsRowMajor);
+
 static void putVec(vio::Out & o, const POMDP::Belief & v) {
     for (Eigen::Index i = 0; i < v.size(); ++i) o << (double) v[i];
 }
@@ -58,10 +109,7 @@ static void runModel(const M & model, const std::vector<POMDP::Belief> & beliefs
         for (size_t o = 0; o < O; ++o)
             for (size_t s = 0; s < S; ++s)
                 for (size_t s1 = 0; s1 < S; ++s1) {
-                    if constexpr (std::is_same_v<std::remove_cvref_t<decltype(sosa[a][o])>, SparseMatrix2D>)
-                        out << (double) sosa[a][o].coeff(s, s1);
-                    else
-                        out << (double) sosa[a][o](s, s1);
+                    out << (double) sosa[a][o].coeff(s, s1);
                 }
     for (const auto & b : beliefs) {
         for (size_t a = 0; a < A; ++a) {
@@ -167,6 +215,20 @@ int main(int argc, char ** argv) {
             emitVariant([&]{ return MixDS(O, x.ob, S, A, x.t, x.r, 0.5); }, beliefs, out);
             emitVariant([&]{ return MixSD(O, x.ob, S, A, x.t, x.r, 0.5); }, beliefs, out);
             emitVariant([&]{ return UserModel(S, A, O, x.t, x.r, x.ob); }, beliefs, out);
+            emitVariant([&]{ return UserEigenByValue(DenseP(O, x.ob, S, A, x.t, x.r, 0.5)); }, beliefs, out);
+            emitVariant([&]{ return UserEigenColSparse(DenseP(O, x.ob, S, A, x.t, x.r, 0.5)); }, beliefs, out);
+        } else if (kind == "conv") {
+            // conv dy S A O <tables> NB beliefs
+            // The source tables are exact distributions whose observation rows carry a tail of entries below the
+            // sparse models' 1e-6 storage threshold.  Sparse models are built BY CONVERSION from a dense and from
+            // a user-defined source; each either refuses (std::invalid_argument) or must filter consistently.
+            c.next();
+            const size_t S = c.nextSize(), A = c.nextSize(), O = c.nextSize();
+            const Tables x = readTables(c, S, A, O);
+            const auto beliefs = readBeliefs(c, S);
+            emitVariant([&]{ return SparseP(DenseP(O, x.ob, S, A, x.t, x.r, 0.5)); }, beliefs, out);
+            emitVariant([&]{ return SparseP(UserModel(S, A, O, x.t, x.r, x.ob)); }, beliefs, out);
+            emitVariant([&]{ return MixSD(DenseP(O, x.ob, S, A, x.t, x.r, 0.5)); }, beliefs, out);
         } else if (kind == "reset") {
             // reset <regime> S A O <tables 1> <tables 2> NB beliefs
             // Models are built through the other public construction paths and then RE-SET; the belief
@@ -321,6 +383,8 @@ int main(int argc, char ** argv) {
             { MixDS m(O, x.ob, S, A, x.t, x.r, 0.5);   out << "ok"; filter(m); }
             { MixSD m(O, x.ob, S, A, x.t, x.r, 0.5);   out << "ok"; filter(m); }
             { UserModel m(S, A, O, x.t, x.r, x.ob);    out << "ok"; filter(m); }
+            { UserEigenByValue m(DenseP(O, x.ob, S, A, x.t, x.r, 0.5));   out << "ok"; filter(m); }
+            { UserEigenColSparse m(DenseP(O, x.ob, S, A, x.t, x.r, 0.5)); out << "ok"; filter(m); }
         } else throw std::logic_error("unknown case kind " + kind);
     });
 }
